@@ -103,7 +103,9 @@ func NewValueObject(fields map[string]*Value) *Value {
 func (self ValueObject) IntoAnyObject() *Value {
 	fields := make(map[string]*Value, len(self.FieldsInternal))
 	for key, field := range self.FieldsInternal {
-		fields[key] = field
+		// every field gets its own cell: a later assignment through the typed object must not show in the any-object
+		fieldCell := *field
+		fields[key] = &fieldCell
 	}
 	return NewValueAnyObject(fields)
 }
